@@ -9,4 +9,26 @@ CHECKS = {
         note="float instances are tied by differential testing; theorems are for exact storage (the specification the float results approximate within the C03 bounds)",
         technique="Lean 4 proof (exact specification) + bit-exact correspondence check"),
 }
+CHECKS.update({
+    'C06': dict(
+        text="Lean 4 theorems (exact storage, any number of base quantities, any exponents, any non-zero base coefficients): change_base preserves the physical magnitude, hence + − * / comparisons, mul_add, kind conversion and TT±TI compute the raw operation on the physical magnitudes; float change_base is b·R/L up to two roundings (theorem about the soft-float). Tied to the code by a bit-exact (floats) / exact (BigRational, BigInt) correspondence over mixed-base operand pairs with an exact-rational oracle on the implementation's output",
+        note="operator bodies are hand-transcribed into the Lean operator table and tied by differential testing; powi is supplied by the implementation; hypot (libm) is a parameter",
+        technique="Lean 4 proof (exact field identities + soft-float error bound) + correspondence check"),
+    'C07': dict(
+        text="Lean 4 theorems: same-base change_base is the bit-exact identity (floats: every canonical value incl. NaN/inf/-0.0; rationals; integers), every same-base binary form equals the raw operation, and by induction over the operation list any history leaves the quantity register equal to the bare-number register (instantiated for f32, f64, BigRational, BigInt, fixed-width integers). Correspondence: every same-base form and seeded histories on 11 storage types in default and non-default base units, quantity result compared with the bare-number operation and with the model's own arithmetic",
+        note="the operator table is hand-transcribed and tied by differential testing; forwarded functions (min/max/saturating/abs/signum/sqrt/…) are parameters compared against the storage type's own function",
+        technique="Lean 4 proof (identity lemmas + induction over histories) + correspondence check"),
+    'C10': dict(
+        text="Lean 4 theorems: all comparison forms are functions of one partial_cmp of the left value with the same converted right value (lt/le/gt/ge/eq/ne coherence, NaN unordered, reflexivity of non-NaN, mirror symmetry for floats and exact types, equal values hash equally); correspondence over all ten observables on 11 storage types same-base and on mixed-base float/exact pairs with the exact order of the physical magnitudes as oracle",
+        note="comparison bodies are hand-transcribed; Ord::max/min/clamp/cmp are compared against the storage type's own functions",
+        technique="Lean 4 proof (decision logic of the comparison table) + correspondence check"),
+    'C15': dict(
+        text="Lean 4 theorems over the impl_from! list regenerated from src/si/mod.rs on every run: a conversion between kinds exists iff exactly one side is the default kind and the other a non-temperature special kind (decide +kernel on the generated table); exponents untouched; magnitude preserved exactly (exact storage, any base units) and bit-identically (floats, identical base units). Correspondence over 9 special/default quantity pairs, both directions, same and different base units, f32/f64/BigRational/BigInt",
+        note="the macro body (change_base over the target dimension) is hand-transcribed; the instance list is generated; negative programs are additionally type-checked by rustc under C02",
+        technique="Lean 4 proof (kernel-decided table + field identities) + correspondence check"),
+    'C17': dict(
+        text="Lean 4 theorems: for operands sharing base units the autoconvert bodies equal the not_autoconvert bodies for every binary form, kind conversion and mul_add (from the same-base identity lemmas). Correspondence: one seeded transcript (same-base operator forms, construction/read-back/rounding) produced by the harness built under {autoconvert on,off}×{std on,off}; transcripts must be byte-identical, differences are violations unless listed (F8); the non-default configurations are also run through the Lean model",
+        note="uom is rebuilt under four feature sets; the harness itself links std; rejection of mixed-base operands without autoconvert is a C02 probe",
+        technique="Lean 4 proof (on/off operator tables agree) + four-configuration transcript comparison"),
+})
 NOT_APPLICABLE = {}
